@@ -188,7 +188,7 @@ def shadowing(chk, cfg):
     slice_api = set()
     for b in bio.bodies:
         imp = b.get("impl") or {}
-        if b["kind"] == "AssocFn" and not imp.get("trait") and re.match(r"^seq::slice::SeqSlice<", an._strip_lt(imp.get("self_ty") or "")):
+        if b["kind"] == "AssocFn" and not imp.get("trait") and re.match(r"^seq::slice::SeqSlice<", an._strip_lt(imp.get("self_ty") or "")) and an.has_self_receiver(b):
             slice_api.add(b["path"].split("::")[-1])
     chk.floor("SeqSlice inherent API[%s]" % cfg.name, len(slice_api), 5)   # non-vacuity (10 counted)
     n = 0
@@ -201,7 +201,7 @@ def shadowing(chk, cfg):
         if not owner:
             continue
         name = b["path"].split("::")[-1]
-        if not imp.get("trait") and name in slice_api:
+        if not imp.get("trait") and name in slice_api and an.has_self_receiver(b):
             n += 1
             ok = (owner.group(1), name) in SHADOW_OK
             chk.ob("I-shadow", "%s::%s" % (owner.group(1), name), ok,
